@@ -103,6 +103,14 @@ func c01FreshBytes(c *core.Ctx, r *ecRoles, rule string) {
 			key := core.FuncKey(ig.Read) + " returns bytes"
 			why, ok := c01BytesProvenance(rt.Results[bi], map[ssa.Value]bool{})
 			c.Check(ok, rule, key, core.InstrPos(rt), why, "returned []byte is neither nil nor the result of encoding/json.Marshal: "+why)
+			// the encoder's error travels with its bytes: a failed Marshal must not be reported as success
+			if ex, isEx := rt.Results[bi].(*ssa.Extract); isEx && ok {
+				errRes := rt.Results[len(rt.Results)-1]
+				ex2, isEx2 := errRes.(*ssa.Extract)
+				paired := isEx2 && ex2.Tuple == ex.Tuple && ex2.Index == 1
+				c.Check(paired, rule, core.FuncKey(ig.Read)+" returns encoder error", core.InstrPos(rt), "the error result of json.Marshal is returned together with its bytes",
+					"the bytes come from json.Marshal but its error is not the returned error: a record whose encoding fails (NaN/Inf float) would be reported as (nil, nil) — neither a record nor a failure")
+			}
 		}
 	}
 }
